@@ -27,6 +27,10 @@ type C20Case struct {
 	// Rival, when set: a second generate run for the same destination, with this method (1-6, different from the
 	// layout's) and one more point in the last archive, executes at the same time
 	Rival int `json:"rival,omitempty"`
+	// Parallel, when > 0: this many further generate runs (same request, other destinations) execute at the same
+	// time in the same process; the file checked is the Pick-th of them (0 = the case's own)
+	Parallel int `json:"parallel,omitempty"`
+	Pick     int `json:"pick,omitempty"`
 }
 
 func runC20(c C20Case, ev *Evid) (fs []Finding) {
@@ -92,9 +96,42 @@ func runC20(c C20Case, ev *Evid) (fs []Finding) {
 	}
 	gc := &cmd.GenerateCommand{Dest: path, Perm: 0644, AggregationMethod: wt.AggregationMethod(c.L.Method), XFilesFactor: c.L.XFF, ArchiveInfoList: wtArchives(c.L), RandMax: c.Max, Fill: c.Fill, TextOut: ""}
 	libClockSkew = time.Duration(c.Skew) * time.Second
-	err, pm := runCommand(c.Now, gc)
+	var err error
+	var pm string
+	if c.Parallel > 0 && c.Existing == "" {
+		cmds := []*cmd.GenerateCommand{gc}
+		for i := 1; i <= c.Parallel; i++ {
+			g := *gc
+			g.Dest = filepath.Join(dir, fmt.Sprintf("gen-%d.wsp", i))
+			cmds = append(cmds, &g)
+		}
+		errs := make([]error, len(cmds))
+		pms := make([]string, len(cmds))
+		pm = atClock(c.Now, func() {
+			var wg sync.WaitGroup
+			for i := range cmds {
+				wg.Add(1)
+				go func(i int) {
+					defer wg.Done()
+					pms[i] = guard(func() { errs[i] = cmds[i].Execute() })
+				}(i)
+			}
+			wg.Wait()
+		})
+		for i := range cmds {
+			if pm == "" && pms[i] != "" {
+				pm = pms[i]
+			}
+			if err == nil && errs[i] != nil {
+				err = errs[i]
+			}
+		}
+		path = cmds[c.Pick%len(cmds)].Dest
+	} else {
+		err, pm = runCommand(c.Now, gc)
+	}
 	libClockSkew = time.Second
-	desc := fmt.Sprintf("generate now=%d layout=%s max=%d fill=%v existing=%q", c.Now, c.L, c.Max, c.Fill, c.Existing)
+	desc := fmt.Sprintf("generate now=%d layout=%s max=%d fill=%v existing=%q parallel=%d", c.Now, c.L, c.Max, c.Fill, c.Existing, c.Parallel)
 	if pm != "" {
 		add("generate-panic", "%s: panicked: %s", desc, pm)
 		return
@@ -247,6 +284,9 @@ func TestC20(t *testing.T) {
 				c.Existing = rapid.SampledFrom([]string{"garbage", "whisper"}).Draw(t, "existingKind")
 			} else if rapid.IntRange(0, 7).Draw(t, "rival") == 0 {
 				c.Rival = 1 + l.Method%6
+			} else if c.Fill && rapid.IntRange(0, 5).Draw(t, "parallel") == 0 {
+				c.Parallel = rapid.IntRange(2, 7).Draw(t, "parallelRuns")
+				c.Pick = rapid.IntRange(0, c.Parallel).Draw(t, "pick")
 			}
 			return c
 		},
